@@ -1413,3 +1413,63 @@ Proof.
   split; [apply NoShare_dec; vm_compute; reflexivity|].
   split; [vm_compute; reflexivity|]. repeat split; vm_compute; reflexivity.
 Qed.
+
+(* ---- the same isolation read off the code's RIB ---- *)
+Lemma ends_evs w o : ends_session o = true -> exists ms, step_evs (wstep w o).2 = map (fun m => EDown m None) ms.
+Proof.
+  intros He. destruct o as [k|k m|k|b|b u|b|af pfx|k]; try discriminate; cbn [wstep].
+  - destruct (w_routers w !! k) as [[rid s]|]; [|exists []; reflexivity].
+    destruct (sm_step (w_reg w) rid s m) as [[r' s'] out] eqn:Est. cbn [snd]. rewrite step_evs_step.
+    assert (Ho : out = (sm_step (w_reg w) rid s m).2) by (rewrite Est; reflexivity). clear Est. subst out.
+    destruct (sm_phase s) eqn:Eph.
+    + exists []. unfold sm_step. rewrite Eph. destruct m; try discriminate; reflexivity.
+    + rewrite sm_step_live by (left; exact Eph). destruct m as [| |q|q e|q|q u]; try discriminate; cbn [live_step].
+      * unfold terminate. cbn [snd]. exists (map (fun kv : pph * peer => pe_id kv.2) (map_to_list (sm_peers s))).
+        destruct (map _ (map_to_list (sm_peers s))); reflexivity.
+      * destruct (peer_down_spec (w_reg w) s q) as [pe E|E]; [exists [pe_id pe]|exists []]; reflexivity.
+    + rewrite sm_step_live by (right; exact Eph). destruct m as [| |q|q e|q|q u]; try discriminate; cbn [live_step].
+      * unfold terminate. cbn [snd]. exists (map (fun kv : pph * peer => pe_id kv.2) (map_to_list (sm_peers s))).
+        destruct (map _ (map_to_list (sm_peers s))); reflexivity.
+      * destruct (peer_down_spec (w_reg w) s q) as [pe E|E]; [exists [pe_id pe]|exists []]; reflexivity.
+    + exists []. unfold sm_step. rewrite Eph. destruct m; try discriminate; reflexivity.
+  - destruct (w_routers w !! k) as [[rid s]|]; [|exists []; reflexivity]. cbn [snd]. rewrite step_evs_step. eexists. reflexivity.
+  - destruct (w_bgp w !! b) as [[id c]|]; [|exists []; reflexivity]. cbn [snd]. rewrite step_evs_step. exists [id]. reflexivity.
+Qed.
+
+Lemma downed_downs h ms f p i : f < 4 ->
+  downed (h ++ map (fun m => EDown m None) ms) (f, p, i) = downed h (f, p, i) || bool_decide (i ∈ ms).
+Proof.
+  intros Hf. unfold downed. rewrite existsb_app. f_equal.
+  induction ms as [|m ms IH]; cbn [map existsb].
+  - rewrite bool_decide_false; [reflexivity|]. intros H. inversion H.
+  - rewrite IH. unfold down_hits, k_mui, k_fam. cbn [fst snd]. rewrite (bool_decide_true (f < 4)) by exact Hf. rewrite andb_true_r.
+    apply bool_ext_iff. rewrite orb_true_iff, !bool_decide_eq_true, elem_of_cons. reflexivity.
+Qed.
+
+Theorem pipe_session_end_rib ops o x i f p :
+  disciplined (ops ++ [o]) = true -> N.of_nat (length (ops ++ [o])) < two32 - 2 -> f < 4 ->
+  ends_session o = true ->
+  NoShare (w_ids (run_world ops).1) -> id_of (w_ids (run_world ops).1) x = Some i ->
+  rib_lookup (w_rib (run_world (ops ++ [o])).1) (f, p, i) =
+  if named (run_sworld ops).1 o x then wdn (rib_lookup (w_rib (run_world ops).1) (f, p, i))
+  else rib_lookup (w_rib (run_world ops).1) (f, p, i).
+Proof.
+  intros Hd Hlen Hf He HN Hx.
+  pose proof (pipe_session_end_isolated ops o x i f p Hd Hlen Hf He HN Hx) as Hiso.
+  rewrite !world_rib_is_run, !rib_lookup_spec, Hiso.
+  destruct (ends_evs (run_world ops).1 o He) as [ms Hms].
+  assert (Hh : evs_of (world_updates (ops ++ [o])) = evs_of (world_updates ops) ++ map (fun m => EDown m None) ms).
+  { rewrite world_updates_snoc, evs_of_app. f_equal. exact Hms. }
+  assert (Hsp : spec_lookup (evs_of (world_updates (ops ++ [o]))) (f, p, i) =
+                if bool_decide (i ∈ ms) then wdn (spec_lookup (evs_of (world_updates ops)) (f, p, i))
+                else spec_lookup (evs_of (world_updates ops)) (f, p, i)).
+  { rewrite Hh. unfold spec_lookup. rewrite fold_left_app. apply fold_spec_downs, Hf. }
+  rewrite Hh, downed_downs by exact Hf. rewrite Hiso in Hsp.
+  set (sp := spec_lookup (evs_of (world_updates ops)) (f, p, i)) in *.
+  set (dn := downed (evs_of (world_updates ops)) (f, p, i)).
+  destruct (named (run_sworld ops).1 o x).
+  - destruct sp as [[s a]|]; reflexivity.
+  - destruct sp as [[s a]|]; [|reflexivity]. destruct (bool_decide (i ∈ ms)).
+    + cbn [wdn] in Hsp. injection Hsp as ->. reflexivity.
+    + rewrite orb_false_r. reflexivity.
+Qed.
